@@ -56,14 +56,16 @@ Proof. exact live_ids_nodup_refuted_with_release_on_remove. Qed.
 
 (** replaceNN indexes of one entity's fixups: distinct and positive after construction from any list,
     provided the constructor tests positivity, and kept by every set/delete. *)
-Theorem c08_fixup_init : ∀ l, FxInv (fx_init true l).
+Theorem c08_fixup_init : ∀ l, FxInv (fx_init true true l).
 Proof. exact fx_init_inv. Qed.
 Theorem c08_fixup_set : ∀ v f, FxInv f → FxInv (fx_set v f).
 Proof. exact fx_set_inv. Qed.
 Theorem c08_fixup_del : ∀ v f, FxInv f → FxInv (fx_del v f).
 Proof. exact fx_del_inv. Qed.
-Theorem c08_fixup_init_needs_positive_test : (fx_init false [(7, 0)]).*2 = [0].
+Theorem c08_fixup_init_needs_positive_test : (fx_init false true [(7, 0)]).*2 = [0].
 Proof. exact fx_init_refuted_without_positive_test. Qed.
+Theorem c08_fixup_init_needs_deferral : (fx_init true false [(10, 2); (11, 2); (12, 1)]).*2 = [2; 1; 1].
+Proof. exact fx_init_refuted_without_deferral. Qed.
 
 (** ------------------------------------------------------------------------------------------------
     Round 2. *)
